@@ -25,7 +25,7 @@ VARIANTS = {
     'development': dict(inc=[os.path.join(REPO, 'development')], header='<ffsm2/machine_dev.hpp>'),
 }
 PROPS = ['C%02d' % i for i in range(1, 21)]
-SPEC_MODULES = ['contracts.machine', 'contracts.control', 'contracts.plans', 'contracts.c20', 'contracts.c13', 'contracts.c10', 'contracts.c07', 'contracts.structure', 'contracts.serial', 'contracts.c17']
+SPEC_MODULES = ['contracts.machine', 'contracts.serial', 'contracts.control', 'contracts.plans', 'contracts.c20', 'contracts.c13', 'contracts.c10', 'contracts.c07', 'contracts.structure', 'contracts.c17']
 
 
 def load_units():
@@ -262,7 +262,7 @@ def main():
                    'target': meta['target'], 'times_s': {k: round(x, 2) for k, x in r.get('times', {}).items()},
                    'callees': {k: m for k, m in meta['fn_mode'].items() if k != meta['target']},
                    'loops': 'loop contracts' if any(c.get('loops') for nn, c in u.get('contracts', {}).items() if nn in meta.get('bodies', [])) else ('unwind %s with unwinding assertions' % u['unwind'] if u.get('unwind') else 'loop-free'),
-                   'notes': meta['notes'], 'back_end': 'cbmc 6.11 SAT (%s)' % (u.get('sat_solver') or 'minisat2 default')}
+                   'notes': meta['notes'], 'back_end': 'cbmc 6.11 SAT (%s)' % (u.get('sat_solver') or 'cadical')}
             fi = meta['fn_info'].get(meta['target'], {})
             fns_under_contract[meta['target']] = '%s::%s [%s:%s]' % (fi.get('owner'), fi.get('name'), os.path.basename(str(fi.get('file'))), fi.get('line'))
             if r['status'] != 'done':
@@ -371,7 +371,7 @@ def main():
 TRUSTED_BASE = [
     'clang 14 parser and template instantiation (the JSON AST is taken as the meaning of the C++)',
     'tools/cxx2c.py lowering rules C++ AST -> C (classes->structs, references->pointers, temporaries hoisted, RAII destructors made explicit, forward/move as identity)',
-    'CBMC 6.11.0, goto-instrument DFCC contract instrumentation, MiniSat',
+    'CBMC 6.11.0, goto-instrument DFCC contract instrumentation, CaDiCaL (SAT back end)',
     'x86-64 type sizes; C semantics of fixed-width integer arithmetic equal to C++ for the lowered expressions',
     'parametricity: a function lowered with symbolic constants stands for all instantiations that differ only in those constants (explicit specialisations are lowered separately)',
 ]
